@@ -53,6 +53,8 @@ type stackCase struct {
 	Cfg        int        `json:"cfg"`
 	SlowInit   int        `json:"slow_init"` // node whose back-end initialisation takes SlowMs (0: none)
 	SlowMs     int        `json:"slow_ms"`
+	Late       []int      `json:"late"`    // nodes that call KeyGen LateMs after the others (the start-up barrier, spec/Barrier.tla)
+	LateMs     int        `json:"late_ms"`
 }
 
 type stackJob struct {
@@ -267,7 +269,15 @@ func stackExec(t int, c stackCase) []obj {
 		id := id
 		ctx, cancel := context.WithTimeout(context.Background(), deadline)
 		cancels = append(cancels, cancel)
+		late := false
+		for _, x := range c.Late {
+			late = late || x == id
+		}
 		go func() {
+			if late && c.LateMs > 0 {
+				time.Sleep(time.Duration(c.LateMs) * time.Millisecond)
+			}
+			r.log(obj{"e": "call", "node": id})
 			if c.Mode == "direct" {
 				data, err := r.direct[id].KeyGen(ctx)
 				results <- kgres{id, data, err}
